@@ -648,6 +648,42 @@ fn scen_body(sc: &Scen) {
     }
 }
 
+/// One execution, optionally with the C19 protocol monitors and the model conformance replay.
+#[cfg(feature = "hooks")]
+fn exec_with_proto(sc: &Scen, proto_on: bool) {
+    if proto_on {
+        crate::proto::take_trace();
+    }
+    scen_body(sc);
+    if proto_on {
+        let trace = crate::proto::take_trace();
+        let mut st = crate::proto::ProtoStats::default();
+        let r = crate::proto::check_trace(&trace, &mut st);
+        bump("protocol_events", st.events);
+        bump("threads_blocked", st.blocks);
+        bump("lock_transfers", st.transfers);
+        bump("lock_transfers_changing_thread", st.transfers_changing_thread);
+        bump("releases_with_waiters", st.releases_with_waiters);
+        bump("resumed_completed", st.resumed_completed);
+        bump("resumed_panicked", st.resumed_panicked);
+        bump("resumed_cancelled", st.resumed_cancelled);
+        if st.blocks > 0 {
+            bump("traces_with_waiting", 1);
+        }
+        if let Err(m) = r {
+            viol(&format!("protocol:{}", sc.name), m);
+        }
+        // layer 3: the same trace replayed on the model of the protocol
+        match crate::pmodel::conform::replay(&trace) {
+            Ok(n) => {
+                bump("model_states_compared_with_real_state", n);
+                bump("traces_replayed_on_model", 1);
+            }
+            Err(m) => viol(&format!("protocol-model-divergence:{}", sc.name), m),
+        }
+    }
+}
+
 pub fn run_worker(spec: &E2Spec, w: usize, n: usize) -> WorkerOut {
     let mut out = WorkerOut::default();
     #[cfg(feature = "hooks")]
@@ -666,31 +702,7 @@ pub fn run_worker(spec: &E2Spec, w: usize, n: usize) -> WorkerOut {
         };
         let nontrivial_before = out.stats.counters.get("nontrivial_schedules").copied().unwrap_or(0);
         #[cfg(feature = "hooks")]
-        let rep = shuttle::explore(cfg, move || {
-            if proto_on {
-                crate::proto::take_trace();
-            }
-            scen_body(&sc2);
-            if proto_on {
-                let trace = crate::proto::take_trace();
-                let mut st = crate::proto::ProtoStats::default();
-                let r = crate::proto::check_trace(&trace, &mut st);
-                bump("protocol_events", st.events);
-                bump("threads_blocked", st.blocks);
-                bump("lock_transfers", st.transfers);
-                bump("lock_transfers_changing_thread", st.transfers_changing_thread);
-                bump("releases_with_waiters", st.releases_with_waiters);
-                bump("resumed_completed", st.resumed_completed);
-                bump("resumed_panicked", st.resumed_panicked);
-                bump("resumed_cancelled", st.resumed_cancelled);
-                if st.blocks > 0 {
-                    bump("traces_with_waiting", 1);
-                }
-                if let Err(m) = r {
-                    viol(&format!("protocol:{}", sc2.name), m);
-                }
-            }
-        });
+        let rep = shuttle::explore(cfg, move || exec_with_proto(&sc2, proto_on));
         #[cfg(not(feature = "hooks"))]
         let rep = shuttle::explore(cfg, move || scen_body(&sc2));
         out.stats.executions += rep.schedules;
@@ -715,7 +727,7 @@ pub fn run_worker(spec: &E2Spec, w: usize, n: usize) -> WorkerOut {
         }
         let mut seen = std::collections::BTreeSet::new();
         for (sig, what, schedule) in VIOLS.lock().unwrap().drain(..) {
-            if spec.id == "C19" && !sig.starts_with("protocol:") {
+            if spec.id == "C19" && !sig.starts_with("protocol") {
                 // value oracles of the borrowed harnesses belong to their own properties
                 continue;
             }
@@ -753,10 +765,14 @@ pub fn run_worker(spec: &E2Spec, w: usize, n: usize) -> WorkerOut {
 }
 
 /// Replay one recorded schedule of a scenario; returns the violation found, if any.
-pub fn replay_case(case: &serde_json::Value) -> Option<Option<String>> {
+pub fn replay_case(case: &serde_json::Value, proto_on: bool) -> Option<Option<String>> {
     let sc: Scen = serde_json::from_value(case.get("scenario")?.clone()).ok()?;
     let schedule: Vec<u32> = serde_json::from_value(case.get("schedule")?.clone()).ok()?;
     VIOLS.lock().unwrap().clear();
+    #[cfg(feature = "hooks")]
+    if proto_on {
+        crate::proto::install_sink();
+    }
     let sc2 = sc.clone();
     // warm the process-global lazies exactly as the explorer does
     for _ in 0..3 {
@@ -765,8 +781,11 @@ pub fn replay_case(case: &serde_json::Value) -> Option<Option<String>> {
     }
     VIOLS.lock().unwrap().clear();
     OUTCOMES.lock().unwrap().clear();
+    #[cfg(feature = "hooks")]
+    let f = shuttle::replay(move || exec_with_proto(&sc2, proto_on), &schedule, u32::MAX);
+    #[cfg(not(feature = "hooks"))]
     let f = shuttle::replay(move || scen_body(&sc2), &schedule, u32::MAX);
-    let v = VIOLS.lock().unwrap().drain(..).next();
+    let v = VIOLS.lock().unwrap().drain(..).find(|v| !proto_on || v.0.starts_with("protocol"));
     match (f, v) {
         (Some(Failure::Nondeterminism { .. }), _) | (Some(Failure::Hang { .. }), _) => None,
         (Some(f), _) => Some(Some(format!("{f:?}"))),
